@@ -16,6 +16,15 @@ CHECKS = {
          "lengths are 64-bit bit-vectors constrained to [0,70000] (limit [1,60000]) so that counterexamples can be replayed; SIZE of 0..6 digits; body content is never inspected", "4 C06"),
 }
 
+CHECKS.update({
+ "C07": ("k symbolic store operations (deliver/get/mark-seen/remove/purge/visit/list, ids from a menu incl. missing, 'latest', empty) on a fresh mem.New store compared after every step with an ordered-list reference model (ids never reused, content/size/seen read back, missing => ErrNotExist); paths with the same store shape are merged, other shapes are explored separately",
+         "memory back-end only: the file store needs a file-system/gob model that is not built (see DESIGN §5), so back-end equivalence is claimed only as 'mem refines the reference model'; k <= 4 operations, two mailboxes, bodies of 1..3 bytes", "4 C07"),
+ "C08": ("k symbolic operations (deliver with sizes from a menu, remove, purge) on mem.New with a mailbox cap and/or a store size limit — the real maxSizeEnforcer goroutine and its channels are executed — compared after every step with a reference that evicts oldest-first; stored bytes <= limit; a fitting new message is retrievable at once",
+         "memory store only (file-store cap loop not covered); goroutines scheduled run-to-block (one schedule per history; other interleavings are C09); k <= 4 (thorough 5), sizes {400,700,1100}, cap in {0,1,2}, limit in {0,1,2} KiB", "4 C08"),
+ "C13": ("real pop3.startSession loop over scripted sessions (optional USER/PASS prelude + k symbolic menu steps, then EOF / idle timeout / network error); ghost POP3 model: status indicators, RFC 1939 data fields of STAT/LIST/UIDL, snapshot stability while the store changes behind the session, deletions committed exactly on QUIT",
+         "bounded: <= 4 symbolic steps (thorough 6), mailbox of <= 3 messages, numeric arguments from the menu; bufio/fmt.Fprint/bufio.Scanner are models validated by native replay; STLS/TLS and RETR content (C02) outside", "4 C13"),
+})
+
 NOT_APPLICABLE = {}
 
 def main():
@@ -53,7 +62,7 @@ def main():
         "engines": [{"name": "gosmt", "path": "/verif/engine", "serves_properties": sorted(CHECKS), "kind_free_text": "go/ssa symbolic executor with state merging; SMT-LIB2 QF_BV queries decided by z3 5.1 (z3-new); counterexample and cover models replayed natively through `go test -overlay`"}],
         "checks": checks,
         "not_applicable": na,
-        "notes": "Every check exits 0 = all obligations unsat within the stated bounds and all cover points satisfiable and natively reached; 1 = replayed violation not listed in known_findings.json; 2 = broken (unsupported code, undecided query, vacuous harness, model that does not reproduce). fix: commits in /repo: 288c728 (C03), 7d87c36 (C06).",
+        "notes": "Every check exits 0 = all obligations unsat within the stated bounds and all cover points satisfiable and natively reached; 1 = replayed violation not listed in known_findings.json; 2 = broken (unsupported code, undecided query, vacuous harness, model that does not reproduce). fix: commits in /repo: 288c728 (C03), 7d87c36 (C06), 1c28c1b (C07), 3e84664 (C08).",
     }
     json.dump(m, open('/verif/MANIFEST.json', 'w'), indent=1)
     print("checks:", [c['property_id'] for c in checks], "n/a:", len(na))
